@@ -399,6 +399,56 @@ class ValidatedTranslator(FeeTranslator):
         return super().body(stmts, fallthrough)
 
 
+class AddrLeafTranslator(SetTranslator):
+    """AddrFields._get_asserted_address -> Lean over the model's `Op` (the instruction classes the function tests are mapped
+    to the model's constructors; `ins.addr` is bound by a match; the f-string naming an unknown address uses the printed
+    form of the instruction, passed as `text`)"""
+    GLOBAL_FIELDS = {'ZeroAddress': 'ZeroAddress', 'CreatorAddress': 'CreatorAddress'}
+
+    def global_test(self, e):
+        # isinstance(ins, Global) and isinstance(ins.field, X)
+        if isinstance(e, ast.BoolOp) and isinstance(e.op, ast.And) and len(e.values) == 2:
+            a, b = e.values
+            if (self.isinst(a) == ('ins', 'Global') and isinstance(b, ast.Call) and isinstance(b.func, ast.Name) and b.func.id == 'isinstance'
+                    and isinstance(b.args[0], ast.Attribute) and isinstance(b.args[0].value, ast.Name) and b.args[0].value.id == 'ins'
+                    and b.args[0].attr == 'field' and isinstance(b.args[1], ast.Name) and b.args[1].id in self.GLOBAL_FIELDS):
+                return f'(ins == Tealer.Op.global "{self.GLOBAL_FIELDS[b.args[1].id]}")'
+        return None
+
+    def isinst(self, e):
+        if (isinstance(e, ast.Call) and isinstance(e.func, ast.Name) and e.func.id == 'isinstance' and isinstance(e.args[0], ast.Name)
+                and isinstance(e.args[1], ast.Name)):
+            return (e.args[0].id, e.args[1].id)
+        return None
+
+    def expr(self, e):
+        g = self.global_test(e)
+        if g is not None: return g
+        if isinstance(e, ast.Attribute) and isinstance(e.value, ast.Name) and e.value.id == 'ins' and e.attr == 'addr':
+            return "addr_"
+        if isinstance(e, ast.Name) and e.id == 'ZERO_ADDRESS':
+            return "Tealer.Generated.ZERO_ADDRESS"
+        if isinstance(e, ast.JoinedStr):
+            parts = []
+            for v in e.values:
+                if isinstance(v, ast.Constant) and isinstance(v.value, str): parts.append(lean_str(v.value))
+                elif isinstance(v, ast.FormattedValue) and isinstance(v.value, ast.Name) and v.value.id == 'ins' and v.conversion == -1 and v.format_spec is None:
+                    parts.append("text")
+                elif isinstance(v, ast.FormattedValue) and isinstance(v.value, ast.Name) and v.conversion == -1 and v.format_spec is None:
+                    parts.append(self.expr(v.value))
+                else: raise Untranslatable(ast.dump(e)[:200])
+            return "(" + " ++ ".join(parts) + ")"
+        return super().expr(e)
+
+    def body(self, stmts, fallthrough=None):
+        if stmts and isinstance(stmts[0], ast.If) and self.isinst(stmts[0].test) == ('ins', 'Addr') and not stmts[0].orelse:
+            rest = self.body(stmts[1:], fallthrough)
+            return f"(match ins with | Tealer.Op.addr addr_ => {self.body(stmts[0].body, None)} | _ => {rest})"
+        if stmts and isinstance(stmts[0], ast.If) and not stmts[0].orelse and fallthrough is None and len(stmts) > 1:
+            return f"(if {self.expr(stmts[0].test)} then {self.body(stmts[0].body, None)} else {self.body(stmts[1:], None)})"
+        return super().body(stmts, fallthrough)
+
+
 def gen_leaf():
     from tealer.analyses.dataflow.transaction_context import fee_field
     errors = []
@@ -443,6 +493,16 @@ def gen_leaf():
             except Untranslatable as e:
                 errors.append(f"{cls.__name__}.{name}: {e}")
                 out += [f"-- {cls.__name__}.{name} could not be translated: {e}", ""]
+    try:
+        import textwrap
+        tree = ast.parse(textwrap.dedent(inspect.getsource(addr_fields.AddrFields._get_asserted_address))).body[0]
+        if [a.arg for a in tree.args.args] != ['self', 'ins']: raise Untranslatable("unexpected signature")
+        body = AddrLeafTranslator(addr_fields.AddrFields).body(tree.body)
+        out += ["/-- translated from AddrFields._get_asserted_address; `text` = str(ins) -/",
+                "def addrAsserted (ins : Tealer.Op) (text : String) : List String :=", f"  {body}", ""]
+    except Untranslatable as e:
+        errors.append(f"AddrFields._get_asserted_address: {e}")
+        out += [f"-- AddrFields._get_asserted_address could not be translated: {e}", ""]
     o2, e2 = gen_detector_predicates()
     out += o2; errors += e2
     try:
